@@ -49,7 +49,9 @@ func (l *Line) Insert(pos int, chars ...rune) {
 
 	switch {
 	case l.Len() == 0:
-		*l = chars
+		// The line keeps storage of its own: what is inserted (a kill
+		// ring entry, a register) must not change when the line does.
+		*l = append([]rune{}, chars...)
 	case pos < l.Len():
 		forward := string((*l)[pos:])
 		cut := string(append((*l)[:pos], chars...))
